@@ -443,6 +443,10 @@ HARNESSES = [
             oracle='the winner\'s provided interface does not strictly extend the provided interface of another applicable registration'),
 ]
 
+for _k in HARNESSES:
+    if _k.name in ('s_lookup1', 's_extendors'):
+        _k.stub_kernel = True      # drives private functions / extension points with stub containers (see vlib.runner)
+
 MANIFEST = {
     'engine': 'symx',
     'technique': 'symbolic execution (CrossHair engine + z3): the real adapter._lookup on symbolic nested maps / symbolic __sro__ (kernel), '
